@@ -53,7 +53,7 @@ impl RandomProp for Sources {
             .boxed()
     }
     fn cases(env: &Env) -> u64 {
-        env.n(13 * 12, 13 * 600)
+        env.n(13 * 80, 13 * 3000)
     }
 }
 
